@@ -4,7 +4,8 @@ import Uft.Model.Fstack
    RESET
    CFG depth=N threshold=N optin=0|1 locin=0|1 caller=0|1 enabled=0|1 rstart=N rstop=N nolibcall=0|1 nomerge=0|1 pltfixed=0|1
    TRIG <fn> filter=in|out loc=in|out depth=N time=N trace caller traceon traceoff hide plt
-   RUN <cmd> <rec>…      cmd: replay report graph dump script dumpraw la spec specstrict
+   RUN <cmd> <rec>…      cmd: replay report graph dump script dumpraw la (look-ahead only) spec specstrict
+       (pltfixed=0: replay/script as they were before the repair of finding F-C07-NOLIBCALL)
        rec = E|X|V|L:<depth>:<fn>:<time>   -> the shown records in the same format, or "-"
 -/
 namespace Driver.C07
